@@ -578,4 +578,76 @@ theorem constructRest_globals (cfg : EnvCfg) (allow : Bool) (g : Coll) (uf ut : 
           simp only [hf2, ht2] at h
           exact (addPost_ok allow cfg.post _ _ h).2.2
 
+/-! ## A successful construction is plain assignment in installation order (any allow flag) -/
+
+/-- Whatever the flag: if `_add_to_environment` does not raise, it is an item assignment. -/
+theorem addToEnv_ok (allow : Bool) {m m' : Coll} {n : Name} {v : Owner} (h : addToEnv allow m n v = .ok m') :
+    m' = cset m n v := by
+  unfold addToEnv at h
+  cases hc : cget m n with
+  | some w =>
+    simp only [hc] at h
+    cases allow with
+    | true => simp at h; exact h.symm
+    | false => simp at h
+  | none => simp only [hc] at h; cases h; rfl
+
+theorem addAll_ok (allow : Bool) : ∀ (xs : List (Name × Owner)) (m m' : Coll), addAll allow m xs = .ok m' →
+    m' = setAll m xs := by
+  intro xs
+  induction xs with
+  | nil => intro m m' h; simp only [addAll, Except.ok.injEq] at h; subst h; rfl
+  | cons e xs ih =>
+    intro m m' h
+    obtain ⟨n, v⟩ := e
+    simp only [addAll] at h
+    cases h1 : addToEnv allow m n v with
+    | error x => simp [h1] at h
+    | ok m1 =>
+      simp only [h1] at h
+      rw [addToEnv_ok allow h1] at h
+      exact ih _ _ h
+
+theorem setAll_append (m : Coll) (xs ys : List (Name × Owner)) : setAll m (xs ++ ys) = setAll (setAll m xs) ys := by
+  induction xs generalizing m with
+  | nil => rfl
+  | cons e xs ih => obtain ⟨n, v⟩ := e; simp only [List.cons_append, setAll, ih]
+
+/-- The `additional_globals` loop (repaired), any flag: if it does not raise, no name was reserved and the result is
+plain assignment. -/
+theorem addGlobals_ok (reserved : List Name) (allow : Bool) : ∀ (xs : List (Name × Owner)) (g g' : Coll),
+    addGlobals reserved allow g xs = .ok g' → g' = setAll g xs ∧ ∀ e ∈ xs, e.1 ∉ reserved := by
+  intro xs
+  induction xs with
+  | nil => intro g g' h; simp only [addGlobals, Except.ok.injEq] at h; subst h; exact ⟨rfl, by simp⟩
+  | cons e xs ih =>
+    intro g g' h
+    obtain ⟨n, v⟩ := e
+    simp only [addGlobals, List.contains_iff_mem] at h
+    by_cases hr : n ∈ reserved
+    · simp [hr] at h
+    · simp only [hr, if_false] at h
+      cases h1 : addToEnv allow g n v with
+      | error x => simp [h1] at h
+      | ok g1 =>
+        simp only [h1] at h
+        rw [addToEnv_ok allow h1] at h
+        obtain ⟨h2, h3⟩ := ih _ _ h
+        refine ⟨h2, ?_⟩
+        intro e he
+        rcases List.mem_cons.mp he with h4 | h4
+        · subst h4; exact hr
+        · exact h3 e h4
+
+theorem lastOf_append (xs ys : List (Name × Owner)) (k : Name) :
+    lastOf (xs ++ ys) k = match lastOf ys k with
+      | some w => some w
+      | none => lastOf xs k := by
+  induction xs with
+  | nil => cases h : lastOf ys k <;> simp [lastOf, h]
+  | cons e xs ih =>
+    obtain ⟨n, v⟩ := e
+    simp only [List.cons_append, lastOf, ih]
+    cases lastOf ys k <;> rfl
+
 end NunavutVerif.Resolve
